@@ -101,3 +101,68 @@ Example C01_history_instance :
   c01_ents c01_ops1 = Some [(0, 1); (256, 1)]%N /\ c01_ents (c01_ops1 ++ c01_ops2) = Some [(256, 1)]%N /\
   c01_ents (c01_ops1 ++ c01_ops2 ++ c01_ops3) = Some [(256, 1); (0, 4)]%N.
 Proof. vm_compute. repeat split; reflexivity. Qed.
+
+(* ---------------------------------------------------------------- every lookup path, as observed *)
+From Gecs Require Import ObsFacts.
+
+(** The observation the run language prints for a probe - the numbers the harness prints for the same
+    operation on the real gecs, compared on every run - in closed form.  World level (contains,
+    to_direct, the two find queries; for typed keys also view and borrow): a stored handle is accepted
+    on every path, each showing that same handle, its dense position, its own row and the current
+    direct handle; a handle of this archetype that is not stored is reported absent on every path. *)
+Theorem C01_every_world_path_accepts_a_stored_handle : forall cfg s, Inv s -> forall typed d e row,
+  ents s !! d = Some e -> abs_at s d = Some (e, row) ->
+  probe_storage_world cfg typed KEnt s e = ROk (acc_world typed s d e row).
+Proof. exact probe_world_stored. Qed.
+
+Theorem C01_every_world_path_rejects_an_unstored_handle : forall cfg s, Inv s -> forall typed e,
+  key32 e -> key_arch_id (fst e) = aid s -> eslot e < cap s -> e ∉ ents s ->
+  probe_storage_world cfg typed KEnt s e = ROk (rej_world typed).
+Proof. exact probe_world_unstored. Qed.
+
+(** Archetype level (contains, resolve, to_direct, view, borrow). *)
+Theorem C01_every_archetype_path_accepts_a_stored_handle : forall cfg s, Inv s -> forall d e row,
+  ents s !! d = Some e -> abs_at s d = Some (e, row) ->
+  probe_storage_arch cfg KEnt s e = ROk (acc_arch s d e row).
+Proof. exact probe_arch_stored. Qed.
+
+Theorem C01_every_archetype_path_rejects_an_unstored_handle : forall cfg s, Inv s -> forall e,
+  key32 e -> key_arch_id (fst e) = aid s -> eslot e < cap s -> e ∉ ents s ->
+  probe_storage_arch cfg KEnt s e = ROk rej_arch.
+Proof. exact probe_arch_unstored. Qed.
+
+(** The probe operation itself, in any reachable state, with a dynamically typed handle: dispatched by
+    the packed archetype id at world level ... *)
+Theorem C01_probe_observation_world : forall cfg d qs st w r e a s, RInv d st ->
+  cur_world st = Some w -> get_href st KEnt r = Some e -> snd e <> 0%N -> key32 e ->
+  find_arch (wd_archs d) (key_arch_id (fst e)) = Some a -> w !! a = Some s -> eslot e < cap s ->
+  step cfg d qs st (OProbe LWorld KEnt TAny r) =
+    Some (st, match list_find (fun x => x = e) (ents s) with
+              | Some (dd, _) => acc_world false s dd e (default [] (snd <$> abs_at s dd))
+              | None => rej_world false
+              end).
+Proof. exact step_probe_any_world. Qed.
+
+(** ... and presented to one archetype: decided by that archetype when the handle carries its id, absent
+    on every path when it carries another archetype's id. *)
+Theorem C01_probe_observation_archetype : forall cfg d qs st w r e b bd s, RInv d st ->
+  cur_world st = Some w -> get_href st KEnt r = Some e -> snd e <> 0%N -> key32 e ->
+  wd_archs d !! b = Some bd -> w !! b = Some s -> (da_id bd = key_arch_id (fst e) -> eslot e < cap s) ->
+  step cfg d qs st (OProbe (LArch b) KEnt TAny r) =
+    Some (st, if decide (da_id bd = key_arch_id (fst e)) then
+                match list_find (fun x => x = e) (ents s) with
+                | Some (dd, _) => acc_arch s dd e (default [] (snd <$> abs_at s dd))
+                | None => rej_arch
+                end
+              else rej_arch).
+Proof. exact step_probe_any_arch. Qed.
+
+(** Non-vacuity: after the history above, handle (256, 1) is stored at position 0 of archetype 0 
+    and every world-level path shows exactly that; the destroyed (0, 1) is absent on every path. *)
+Example C01_probe_instance :
+  (st ← run_to (Config false true true) c01_decl [[QP [] false PEntAny true]] rs0 (c01_ops1 ++ c01_ops2 ++ c01_ops3);
+   snd <$> step (Config false true true) c01_decl [] st (OProbe LWorld KEnt TAny (RIssued 1))) =
+    Some [1; 1; 0; 4; 1; 256; 1; 0; 4; 1; 256; 1; 0; 4]%N /\
+  (st ← run_to (Config false true true) c01_decl [[QP [] false PEntAny true]] rs0 (c01_ops1 ++ c01_ops2 ++ c01_ops3);
+   snd <$> step (Config false true true) c01_decl [] st (OProbe LWorld KEnt TAny (RIssued 0))) = Some [0; 0; 0; 0]%N.
+Proof. vm_compute. split; reflexivity. Qed.
